@@ -58,6 +58,10 @@ class FakeExec:
         rec["rc"] = act.get("rc", 0)
         if act.get("kill"):
             raise SimKill()
+        if act.get("raise") is not None:
+            # the program could not be started at all (not found, not executable): subprocess.run raises
+            rec["rc"] = None
+            raise act["raise"]
         for fn, data in act.get("files", {}).items():
             with open(os.path.join(cwd, fn), "wb") as f:
                 f.write(data)
@@ -337,9 +341,30 @@ class SimId:
 
 
 # ---------------------------------------------------------------------------------- seam installation
+def hook_path_class(hook):
+    """A pathlib.Path whose directory-metadata calls (exists / is_dir / mkdir) are yield points: `hook(path, what)` runs
+    first.  Lets a second runner be scheduled between another runner's look at a directory and its creation of it."""
+    import pathlib
+
+    class HookPath(type(pathlib.Path())):
+        def exists(self, *a, **kw):
+            hook(self, "exists")
+            return super().exists(*a, **kw)
+
+        def is_dir(self, *a, **kw):
+            hook(self, "is_dir")
+            return super().is_dir(*a, **kw)
+
+        def mkdir(self, *a, **kw):
+            hook(self, "mkdir")
+            return super().mkdir(*a, **kw)
+
+    return HookPath
+
+
 @contextlib.contextmanager
 def pipeline_seams(fake: FakeExec, spawn: SimSpawn | None = None, executor: SimExecutorFactory | None = None,
-                   tqdm: SimTqdmFactory | None = None):
+                   tqdm: SimTqdmFactory | None = None, runner_path=None):
     import molli.pipeline.job as job
     import molli.pipeline.runner as runner
 
@@ -347,6 +372,8 @@ def pipeline_seams(fake: FakeExec, spawn: SimSpawn | None = None, executor: SimE
 
     sim_id = SimId()
     patches = [(runner, "run", fake), (runner, "exit", _runner_exit), (job, "id", sim_id), (driver, "id", sim_id)]
+    if runner_path is not None:
+        patches.append((runner, "Path", runner_path))
     if spawn is not None:
         patches.append((job, "run", spawn))
     if executor is not None:
